@@ -189,18 +189,40 @@ mod acct_impls {
 // ------------------------------------------------------------------------------------------------
 // type-erased operations
 
-/// `err:<Class>`: ErrorCode variant name for star_frame errors, ProgramError variant name otherwise.
+/// `err:<Class>`: `ErrorCode` variant name for star_frame errors (looked up by error code — the
+/// `name()` of a star_frame error is its message text), `ProgramError` variant name otherwise.
 pub fn class_of(e: star_frame::errors::Error) -> String {
-    let s = e.to_string();
-    if let Some(rest) = s.strip_prefix("StarFrameError: ") {
-        let name: String = rest.chars().take_while(|c| c.is_ascii_alphanumeric() || *c == '_').collect();
-        if !name.is_empty() {
-            return format!("err:{name}");
-        }
-    }
     let pe: ProgramError = e.into();
-    let d = format!("{pe:?}");
-    format!("err:{}", d.split('(').next().unwrap_or("other"))
+    let name = match pe {
+        ProgramError::Custom(code) => match code {
+            1000 => "ExpectedWritable",
+            1001 => "ExpectedSigner",
+            1002 => "AddressMismatch",
+            1003 => "DiscriminantMismatch",
+            2000 => "UnsizedUnexpected",
+            2001 => "PointerOutOfBounds",
+            2002 => "RawSliceAdvance",
+            3000 => "IndexOutOfBounds",
+            3001 => "InvalidRange",
+            9000 => "ToPrimitiveError",
+            9001 => "IoError",
+            9002 => "PodCastError",
+            9003 => "CheckedCastError",
+            9004 => "AdvanceError",
+            9005 => "Utf8Error",
+            9006 => "TryFromIntError",
+            9007 => "TryFromSliceError",
+            9008 => "BorrowError",
+            9009 => "BorrowMutError",
+            _ => return format!("err:Custom{code}"),
+        }
+        .to_string(),
+        other => {
+            let d = format!("{other:?}");
+            d.split('(').next().unwrap_or("other").to_string()
+        }
+    };
+    format!("err:{name}")
 }
 
 /// An input placed flush against a guard page, usable as the backing store of the wrappers.
